@@ -130,6 +130,16 @@ Theorem pytd_agree : forall (H done : list (list nat)),
 Proof. exact pytd_agree_lemma. Qed.
 Print Assumptions pytd_agree.
 
+(* Without the hypothesis on the new class's bases the statement is refuted: GetBasesInMRO has no duplicate
+   check (it de-duplicates like MROMerge).  It is used by VerifyContainers only, which reports no error. *)
+Theorem pytd_agree_refuted :
+  exists H done bases,
+    wf_table H = true /\ no_dup_bases H = true /\ mros_c H = TableOk done /\
+    wf_bases (length H) bases = true /\
+    class_mro_c done (length H) bases = Reject /\ get_bases_in_mro H bases = Ok [1; 0].
+Proof. exact pytd_agree_refuted_lemma. Qed.
+Print Assumptions pytd_agree_refuted.
+
 (* ---- non-vacuity ---- *)
 
 (* object; A; B; C(A,B); D(B,A) [both legal]; E(C,D) [inconsistent]: hypotheses hold, classes 0..4 are
